@@ -136,6 +136,17 @@ func init() {
 				return "reject"
 			}
 		}
+		if o["post"] != nil {
+			// the received (decoded) event objects altered in place before they are verified
+			post := absOf(o["post"])
+			if len(post) == len(upd.Events) {
+				for i, e := range post {
+					upd.Events[i].Index, upd.Events[i].E, upd.Events[i].ParentHash = e.Index, new(big.Int).Set(e.E), revocation.Hash(append([]byte{}, e.Parent...))
+				}
+			} else {
+				upd.Events = goEvents(post)
+			}
+		}
 		acc, err := upd.Verify(pk)
 		// a verdict is a function of the message and the key: the same object asked again (a retry,
 		// or the verification inside Witness.Update after an explicit one) must answer the same
@@ -511,6 +522,30 @@ func genC10(g *Rng, tier string, emit func(Op)) {
 					for _, m := range muts {
 						e2, d2, c2, v2 := m.f(cloneEvs(evs))
 						emit(c.updateOp(e2, accIdx, d2, c2, v2, transport, m.name))
+					}
+					// the genuine message decoded from the wire, its event objects altered afterwards
+					// (each event in turn: value, index, parent hash): what is verified is what is there now
+					if transport != "mem" && len(evs) >= 2 {
+						for i := range evs {
+							for _, what := range []string{"value", "index", "parent"} {
+								alt := cloneEvs(evs)
+								switch what {
+								case "value":
+									alt[i].E = new(big.Int).Add(alt[i].E, bi(2))
+								case "index":
+									alt[i].Index += 7
+								case "parent":
+									alt[i].Parent = refHash(absEvent{alt[i].Index, bi(3), alt[i].Parent})
+								}
+								o := c.updateOp(alt, accIdx, data, counter, kp, "mem", "decoded-then-altered-"+what)
+								o["class"] = "decoded-then-altered-" + what + "-" + transport
+								o["transport"] = transport
+								o["post"] = o["events"]
+								o["events"] = c.updateOp(cloneEvs(evs), accIdx, data, counter, kp, "mem", "x")["events"]
+								o["fkey"] = "C10/decoded-then-altered"
+								emit(o)
+							}
+						}
 					}
 					// the framing of the signed message itself (a CBOR map of message and signature): an
 					// entry lost, renamed or emptied, each right after the genuine message has been
